@@ -392,8 +392,16 @@ class World:
                                  k.now + 5.0, 'check-size')
                 self.size_checks.append(self.size_snapshot())
             elif name == 'check_slots':
-                self.wait_all_resolved(60.0)
-                k.sleep(2.0)
+                # "once the pool is quiet": nothing submitted, resolved or reaped during the last two seconds (the
+                # other user thread may still be submitting; a slot comes back when the worker is replaced)
+                for _ in range(12):
+                    self.wait_all_resolved(60.0)
+                    mark = (len(self.jobs), sum(1 for r in self.jobs.values() if r.first is not None),
+                            sum(1 for w in self.workers.values() if w['proc'].dead))
+                    k.sleep(2.0)
+                    if mark == (len(self.jobs), sum(1 for r in self.jobs.values() if r.first is not None),
+                                sum(1 for w in self.workers.values() if w['proc'].dead)):
+                        break
                 s = pool._putlock
                 self.slot_checks.append({'value': s._value, 'bound': s._initial_value, 'step': k.steps,
                                          'processes': pool._processes,
